@@ -324,6 +324,10 @@ class FormulaMaterializer(metaclass=FormulaMaterializerMeta):
             overrides: dict[str, Any] = {
                 "materializer": self.REGISTER_NAME,
                 "materializer_params": self.params,
+                # State is recorded on the spec attached to the model matrix,
+                # never on the spec that was passed in.
+                "transform_state": dict(model_spec.transform_state),
+                "encoder_state": dict(model_spec.encoder_state),
             }
 
             if model_spec.output is None:
